@@ -30,3 +30,19 @@ pub open spec fn field_entry_step(w0: UperWriter, is_opt: bool, is_present: bool
             } else { w1.bits == w0.bits },
     }
 }
+
+/// pre-condition of encoding one value: well-formed writer and an admissible protocol step
+pub open spec fn wvalue_pre(w: UperWriter, is_opt: bool) -> bool {
+    w.wf() && field_entry_pre(w, is_opt)
+}
+
+/// a scope as `write_sequence` builds it for the root of a SEQUENCE / SET: the preamble it refers to has been written
+pub open spec fn wscope_fresh(s: Scope, b: BitBuffer) -> bool {
+    match s {
+        Scope::OptBitField(range) => range.start <= range.end && range.end <= b.write_position,
+        Scope::ExtensibleSequence { name, bit_pos, opt_bit_field, calls_until_ext_bitfield, number_of_ext_fields } =>
+            calls_until_ext_bitfield > 0 && number_of_ext_fields <= HALF()
+            && (opt_bit_field matches Some(range) && bit_pos < range.start && range.start <= range.end && range.end <= b.write_position),
+        _ => false,
+    }
+}
